@@ -31,17 +31,29 @@ class Exhausted(BaseException):
 
 
 def sc(x):
-    """real value (float/int/None/bool) -> scaled exact integer (or ("q", num, den))"""
+    """real value (float/int/None/bool) -> scaled exact integer (or ("q", num, den)); anything else -> ("odd", type)"""
     if x is None or x is True or x is False:
         return x
-    f = Fraction(x) * S
+    try:
+        f = Fraction(x) * S
+    except (TypeError, ValueError, OverflowError):
+        return ("odd", type(x).__name__)
     if f.denominator == 1:
         return int(f.numerator)
     return ("q", int(f.numerator), int(f.denominator))
 
 
 def un(v):
-    return None if v is None else v / S
+    """scaled integer -> the argument handed to the library: a float, or an equal int when the value is a whole even
+    number of seconds (equal-but-not-identical argument types: the library converts with float())"""
+    if v is None:
+        return None
+    if v % S == 0 and (v // S) % 2 == 0:
+        return v // S
+    return v / S
+
+
+BAD_ARGS = ("abc", [1])      # float("abc") -> ValueError, float([1]) -> TypeError
 
 
 class FakeClock:
@@ -93,12 +105,17 @@ def _val(fn):
         return sc(fn())
     except TypeError:
         return "TypeError"
+    except Exception as ex:      # anything else is an observation the oracle will not be able to account for
+        return "raised-" + type(ex).__name__
 
 
 # --------------------------------------------------------------------------
 # Tymer
 
 def run_tymer(case):
+    """ops: ("tyme", i, v) | ("tick", i) | ("tock", i, v) | ("start", dur|None, start|None) | ("restart", dur|None) | ("wind", i)
+    | ("bad", "start-dur"|"start-start"|"restart-dur", j)  a call with an argument float() rejects
+    | ("other", "restart"|"start"|"wind")  the same call on a SIBLING Tymer wound to tymist 0 (must not touch the primary)"""
     from hio.base import tyming
     _, (t0, t1, k0, k1), (w, dur, start), ops = case
     ts = [tyming.Tymist(tyme=un(t0), tock=un(k0)), tyming.Tymist(tyme=un(t1), tock=un(k1))]
@@ -107,8 +124,9 @@ def run_tymer(case):
         kw["tymth"] = ts[w].tymen()
     try:
         tm = tyming.Tymer(duration=un(dur), start=un(start), **kw)
-    except TypeError:
-        return (("stuck",),)       # the constructor never raises in the model / the reference: the oracle reports it
+        sib = tyming.Tymer(tymth=ts[0].tymen(), duration=un(dur))
+    except Exception as ex:
+        return (("ctor-raised", type(ex).__name__),)       # the constructor never raises in the model / the reference
 
     def snap(ret):
         return (ret, _val(lambda: tm.duration), _val(lambda: tm.elapsed), _val(lambda: tm.remaining), _val(lambda: tm.expired))
@@ -122,19 +140,38 @@ def run_tymer(case):
                 ts[op[1]].tyme = un(op[2])
             elif k == "tick":
                 ts[op[1]].tick()
+            elif k == "tock":
+                ts[op[1]].tock = un(op[2])
             elif k == "start":
                 ret = sc(tm.start(duration=un(op[1]), start=un(op[2])))
             elif k == "restart":
                 ret = sc(tm.restart(duration=un(op[1])))
             elif k == "wind":
                 tm.wind(ts[op[1]].tymen())
+            elif k == "bad":
+                b = BAD_ARGS[op[2] % len(BAD_ARGS)]
+                if op[1] == "start-dur":
+                    tm.start(duration=b)
+                elif op[1] == "start-start":
+                    tm.start(start=b)
+                else:
+                    tm.restart(duration=b)
+                ret = "accepted"
+            elif k == "other":
+                if op[1] == "restart":
+                    sib.restart()
+                elif op[1] == "start":
+                    sib.start(duration=un(7 * S + 3))
+                else:
+                    sib.wind(ts[1].tymen())
             else:
                 raise core.Infra(f"bad tymer op {op!r}")
-        except TypeError:
-            # the only place the model has this: start() at the current tyme on a tymer that is not wound (None + float);
-            # the trace stops there.  Anywhere else the oracle reports it.
-            out.append(("stuck",))
-            return tuple(out)
+        except core.Infra:
+            raise
+        except Exception:
+            # a rejected call.  The model has two: start() at the current tyme on a tymer that is not wound (None + float)
+            # and the ("bad", ...) calls; both must leave the timer as it was.  The trace goes on.
+            ret = "raised"
         out.append(snap(ret))
     return tuple(out)
 
@@ -142,17 +179,18 @@ def run_tymer(case):
 def oracle_tymer(case, obs):
     """C08 for the virtual Tymer, from the property text: a reference (start, duration) pair kept from the
     arguments and return values only; elapsed = now - start, remaining = stop - now, expired <=> now >= stop,
-    restart begins at the previous stop."""
+    restart begins at the previous stop.  A rejected call (bad argument; start() at the current tyme with no tymist)
+    raises and leaves the timer exactly as it was; nothing else raises; a sibling timer is independent."""
     _, (t0, t1, k0, k1), (w, dur, start), ops = case
     bad = set()
     tymes = [t0, t1]
     tocks = [k0, k1]
     rdur = dur if dur is not None else 0
     rstart = start if start is not None else (tymes[w] if w is not None else 0)
+    if not obs or obs[0][0] == "ctor-raised":
+        return ["tymer-constructor-raised"]
 
     def chk(o):
-        if o == ("stuck",):
-            return
         ret, d, e, r, x = o
         if d != rdur:
             bad.add("tymer-duration")
@@ -164,20 +202,27 @@ def oracle_tymer(case, obs):
                 bad.add("tymer-remaining")
             if x is not (now >= rstart + rdur):
                 bad.add("tymer-expired")
+        elif (e, r, x) != ("TypeError", "TypeError", "TypeError"):
+            bad.add("tymer-unwound-report")
 
-    if obs[0] == ("stuck",):
-        return ["tymer-constructor-raised"]
     chk(obs[0])
     for op, o in zip(ops, obs[1:]):
-        if o == ("stuck",):
-            if not (op[0] == "start" and op[2] is None and w is None):
-                bad.add("tymer-op-raised")
-            break
         k = op[0]
+        rejected = k == "bad" or (k == "start" and op[2] is None and w is None)
+        if rejected:
+            if o[0] != "raised":
+                bad.add("tymer-bad-call-accepted")
+            chk(o)      # reference unchanged
+            continue
+        if o[0] == "raised":
+            bad.add("tymer-op-raised")
+            continue
         if k == "tyme":
             tymes[op[1]] = op[2]
         elif k == "tick":
             tymes[op[1]] += tocks[op[1]]
+        elif k == "tock":
+            tocks[op[1]] = op[2]
         elif k == "start":
             rdur = op[1] if op[1] is not None else rdur
             rstart = op[2] if op[2] is not None else tymes[w]
@@ -192,7 +237,7 @@ def oracle_tymer(case, obs):
             w = op[1]
             rstart = tymes[w]
         chk(o)
-    if len(obs) != len(ops) + 1 and obs[-1] != ("stuck",):
+    if len(obs) != len(ops) + 1:
         bad.add("tymer-trace-length")
     return sorted(bad)
 
@@ -228,15 +273,19 @@ def gen_tymer(rng):
         elif r < 0.92:
             d = rng.choice([None, None, val(0, 20), 0])
             s = rng.choice([None, None, val()])
-            if cur is None and s is None and rng.random() < 0.9:
+            if cur is None and s is None and rng.random() < 0.6:
                 s = val()
             ops.append(("start", d, s))
-            if cur is None and s is None:
-                break
         else:
             ops.append(("wind", rng.choice([0, 1])))
             cur = ops[-1][1]
-    # boundary: put the tyme exactly on / one unit beside the stop now and then (expired is `>=`)
+        q = rng.random()
+        if q < 0.06:
+            ops.append(("bad", rng.choice(["start-dur", "start-start", "restart-dur"]), rng.randint(0, 1)))
+        elif q < 0.12:
+            ops.append(("other", rng.choice(["restart", "start", "wind"])))
+        elif q < 0.17:
+            ops.append(("tock", rng.choice([0, 1]), rng.choice([0, 1, 32, 96, val(0, 5)])))
     return ("tymer", (t0, t1, k0, k1), (w, dur, start), tuple(ops))
 
 
@@ -267,12 +316,17 @@ def shrink_ops(case, idx):
 # MonoTimer
 
 def run_mono(case):
+    """ops: ("elapsed",) | ("remaining",) | ("expired",) | ("latest",) | ("duration",) | ("start", dur|None, start|None) | ("restart", dur|None)
+    | ("retro", bool)  assigns timer.retro
+    | ("bad", "start-dur"|"start-start"|"restart-dur", j)  a call with an argument float() rejects
+    | ("other", "elapsed"|"restart")  the same on a SIBLING MonoTimer sharing the clock (elapsed consumes a reading)"""
     from hio.help import timing
     _, base, incs, (dur, start, retro), ops = case
     clock = FakeClock(base, incs)
     out = []
     with patched(clock):
         try:
+            sib = timing.MonoTimer(duration=un(dur), start=un(base))      # explicit start: reads no clock
             tm = timing.MonoTimer(duration=un(dur), start=un(start), retro=retro)
             out.append(("new", clock.i))
             for op in ops:
@@ -284,13 +338,37 @@ def run_mono(case):
                         v = sc(tm.start(duration=un(op[1]), start=un(op[2])))
                     elif k == "restart":
                         v = sc(tm.restart(duration=un(op[1])))
+                    elif k == "retro":
+                        tm.retro = op[1]
+                        v = None
+                    elif k == "bad":
+                        b = BAD_ARGS[op[2] % len(BAD_ARGS)]
+                        if op[1] == "start-dur":
+                            tm.start(duration=b)
+                        elif op[1] == "start-start":
+                            tm.start(start=b)
+                        else:
+                            tm.restart(duration=b)
+                        v = "accepted"
+                    elif k == "other":
+                        if op[1] == "elapsed":
+                            sib.elapsed
+                        else:
+                            sib.restart()
+                        v = None
                     else:
                         raise core.Infra(f"bad mono op {op!r}")
                 except timing.RetroTimerError:
                     v = "RetroTimerError"
+                except core.Infra:
+                    raise
+                except Exception as ex:
+                    v = "ValueError" if k == "bad" else "raised-" + type(ex).__name__
                 out.append((v, clock.i))      # result, number of clock readings consumed so far
         except Exhausted:
             out.append(("exhausted",))
+        except Exception as ex:
+            out.append(("ctor-raised", type(ex).__name__))
     return tuple(out)
 
 
@@ -309,53 +387,79 @@ def pos_sum(rs, a, b):
 
 def oracle_mono(case, obs):
     """C08 for MonoTimer: between two start/restart calls elapsed never decreases and expired never reverts, for
-    every reading sequence; and (title: "measure elapsed time exactly", class doc) for a retro timer whose period was
-    begun by start() at the current clock, elapsed is the real elapsed time = sum of the non-negative clock increments
-    since that reading, remaining = duration - that, expired <=> that >= duration, and restart() continues from the
-    previous stop."""
+    every reading sequence; and (title: "measure elapsed time exactly", class doc) for a timer whose period was
+    begun by start() at the current clock, elapsed is the real elapsed time = sum of the non-negative increments over
+    the readings the timer took since then (a reading it refused with RetroTimerError is not taken), remaining =
+    duration - that, expired <=> that >= duration, and restart() continues from the previous stop.  A call rejected for
+    a bad argument raises and changes nothing; nothing else raises (RetroTimerError only while retro is off); a sibling
+    timer on the same clock is independent."""
     _, base, incs, (dur, start, retro), ops = case
     bad = set()
     rs = readings(base, incs)
     if not obs or obs[0] == ("exhausted",):
         return []
+    if obs[0][0] == "ctor-raised":
+        return ["mono-constructor-raised"]
     n0 = obs[0][1]
-    # reference: anchor = index of the reading the current period chain is measured from (None: started explicitly),
-    # off = start of the current period relative to the anchor in monotone coordinates
-    anchor = (n0 - 1) if (start is None and n0 >= 1) else None
-    off = 0
+    exact = start is None and n0 >= 1
+    E, lastown, off = 0, (rs[n0 - 1] if n0 >= 1 else None), 0
     rdur = dur
     last_el = None
     was_expired = False
+    prev = n0
     for op, o in zip(ops, obs[1:]):
         if o == ("exhausted",):
             break
         v, ni = o
         k = op[0]
+        took, prev = ni - prev, ni
+        if isinstance(v, str) and v.startswith("raised-"):
+            bad.add("mono-op-raised")
+            exact = False
+            continue
+        if k == "other":
+            continue
+        if k == "retro":
+            retro = op[1]
+            continue
+        if k == "bad":
+            if v != "ValueError":
+                bad.add("mono-bad-call-accepted")
+            if took:
+                exact = False
+            continue
         if k in ("start", "restart"):
             last_el, was_expired = None, False
             if k == "start":
                 rdur = op[1] if op[1] is not None else rdur
-                if op[2] is None:
-                    anchor, off = ni - 1, 0
+                if op[2] is None and took == 1:
+                    exact, E, lastown, off = True, 0, rs[ni - 1], 0
                     if v != rs[ni - 1]:
                         bad.add("mono-start-return")
                 else:
-                    anchor = None
+                    exact = False
             else:
                 off += rdur
                 rdur = op[1] if op[1] is not None else rdur
-            continue
-        if v == "RetroTimerError":
-            if retro:
-                bad.add("mono-retro-raised")
             continue
         if k == "duration":
             if v != rdur:
                 bad.add("mono-duration")
             continue
-        exact = retro and anchor is not None
-        el = pos_sum(rs, anchor, ni - 1) - off if exact else None
+        if v == "RetroTimerError":
+            if retro:
+                bad.add("mono-retro-raised")
+            continue
+        if took != 1:
+            exact = False
+        if exact:
+            E += max(0, rs[ni - 1] - lastown)
+            lastown = rs[ni - 1]
+        el = E - off if exact else None
         if k == "elapsed":
+            if not isinstance(v, int):
+                bad.add("mono-elapsed-not-a-number")
+                continue
             if last_el is not None and v < last_el:
                 bad.add("mono-elapsed-decreased")
             last_el = v
@@ -365,6 +469,9 @@ def oracle_mono(case, obs):
             if exact and v != rdur - el:
                 bad.add("mono-remaining-exact")
         elif k == "expired":
+            if v is not True and v is not False:
+                bad.add("mono-expired-not-a-bool")
+                continue
             if was_expired and v is False:
                 bad.add("mono-expired-reverted")
             was_expired = was_expired or v is True
@@ -418,6 +525,17 @@ def gen_mono(rng):
         else:
             s = None if rng.random() < 0.75 else base + rng.randint(-40, 40) * grid
             ops.append(("start", rng.choice([None, None, rng.randint(0, 30) * grid, 0]), s))
+    extra = []
+    for op in ops:
+        extra.append(op)
+        q = rng.random()
+        if q < 0.05:
+            extra.append(("bad", rng.choice(["start-dur", "start-start", "restart-dur"]), rng.randint(0, 1)))
+        elif q < 0.12:
+            extra.append(("other", rng.choice(["elapsed", "elapsed", "restart"])))
+        elif q < 0.16:
+            extra.append(("retro", rng.random() < 0.6))
+    ops = extra
     need = 2 + len(ops)
     incs = gen_incs(rng, need if rng.random() < 0.9 else rng.randint(0, need), grid)
     # a backward step exactly at a start() (between the previous reading and the reading start() takes)
@@ -426,7 +544,8 @@ def gen_mono(rng):
         for op in ops:
             if op[0] == "start" and op[2] is None and pos < len(incs) and rng.random() < 0.7:
                 incs[pos] = -rng.randint(1, 80) * grid
-            if op[0] in ("elapsed", "remaining", "expired", "latest") or (op[0] == "start" and op[2] is None):
+            if op[0] in ("elapsed", "remaining", "expired", "latest") or (op[0] == "start" and op[2] is None) \
+                    or op == ("other", "elapsed"):
                 pos += 1
     if rng.random() < 0.15 and len(incs) >= 2 and start is None:
         incs[1] = -rng.randint(1, 80) * grid      # between the two readings of the constructor
@@ -436,17 +555,7 @@ def gen_mono(rng):
 # --------------------------------------------------------------------------
 # real-time pacing
 
-def run_pace(case):
-    from hio.base import doing
-    _, base, incs, ovs, tock0, pre, n, xs = case
-    clock = FakeClock(base, incs, ovs)
-
-    class LDoist(doing.Doist):
-        def recur(self, *pa, **kwa):
-            clock.log.append(("c", self._cyc))
-            self._cyc += 1
-            return super().recur(*pa, **kwa)
-
+def _mkdoer(clock, n, xs, exc=False):
     def doer(tymth=None, tock=0.0, **kw):
         k = 0
         while True:
@@ -459,11 +568,54 @@ def run_pace(case):
                 clock.tag = "t"
             k += 1
             if k >= n:
+                if exc:
+                    raise RuntimeError("doer failed")
                 return True
     doer.tock = 0.0
     doer.done = None
     doer.opts = {}
+    return doer
 
+
+def _mkdoist(clock):
+    from hio.base import doing
+
+    class LDoist(doing.Doist):
+        def recur(self, *pa, **kwa):
+            clock.log.append(("c", self._cyc))
+            self._cyc += 1
+            return super().recur(*pa, **kwa)
+    return LDoist
+
+
+def _pre(clock, d, pre, doing_cls):
+    """operations between construction and do(): ("peek",) read doist.timer.elapsed; ("tock", v) assign doist.tock (any
+    number of times); ("sib", v) build ANOTHER real-time Doist with tock v (its timer reads the clock twice; tagged x);
+    ("sibtock", v) assign the sibling's tock"""
+    sib = None
+    for op in pre:
+        if op[0] == "peek":
+            d.timer.elapsed
+        elif op[0] == "tock":
+            d.tock = un(op[1])
+        elif op[0] == "sib":
+            clock.tag = "x"
+            try:
+                sib = doing_cls(real=True, tock=un(op[1]))
+            finally:
+                clock.tag = "t"
+        elif op[0] == "sibtock":
+            if sib is not None:
+                sib.tock = un(op[1])
+        else:
+            raise core.Infra(f"bad pre op {op!r}")
+
+
+def run_pace(case):
+    _, base, incs, ovs, tock0, pre, n, xs = case
+    clock = FakeClock(base, incs, ovs)
+    LDoist = _mkdoist(clock)
+    doer = _mkdoer(clock, n, xs)
     end = "done"
     tock_run = None
     i_run = None
@@ -471,26 +623,131 @@ def run_pace(case):
         try:
             d = LDoist(real=True, tock=un(tock0))
             d._cyc = 0
-            for op in pre:
-                if op[0] == "peek":
-                    d.timer.elapsed
-                elif op[0] == "tock":
-                    d.tock = un(op[1])
-                else:
-                    raise core.Infra(f"bad pre op {op!r}")
+            _pre(clock, d, pre, LDoist)
             tock_run = sc(d.tock)
             i_run = len(clock.log)
-            d.do(doers=[doer])
+            d.do(doers=[doer] if n > 0 else [])      # n == 0: no doers at all -- still one paced cycle
             if d.done is not True:
                 end = "notdone"
         except Exhausted:
             end = "exhausted"
+        except core.Infra:
+            raise
         except Exception as ex:      # the run itself raised (e.g. time.sleep(negative) -> ValueError)
             end = "raised-" + type(ex).__name__
     log = clock.log
     if i_run is None:
         return (tuple(log), (), end, None)
     return (tuple(log[:i_run]), tuple(log[i_run:]), end, tock_run)
+
+
+class _Kbd(FakeClock):
+    """script ran out -> KeyboardInterrupt (Ctrl-C arriving during the run) instead of cutting the case"""
+
+    def time(self):
+        if self.i >= len(self.incs) and self.kbd:
+            self.interrupted = True
+            raise KeyboardInterrupt()
+        return FakeClock.time(self)
+
+
+def run_pace2(case):
+    """("pace2", (base, incs, ovs, tock0, pre, n, xs), (mode, tock2), (base2, incs2, ovs2, n2, xs2, entry))
+    The SAME Doist runs twice.  Run 1 is a pace case; mode "kbd": when its clock script runs out inside do() a
+    KeyboardInterrupt is delivered (do() ends the run and returns, or lets it out of timer.start()); mode "exc": the doer
+    raises in its last cycle (do() re-raises after exit()); mode "plain": run 1 must finish within its script.
+    Then doist.tock = tock2 (if given), the system clock is replaced by the second script (a clock step of any size between
+    the runs), and the run is repeated with n2 cycles through entry "do" (doist.do) or "call" (doist())."""
+    _, (base, incs, ovs, tock0, pre, n, xs), (mode, tock2), (base2, incs2, ovs2, n2, xs2, entry) = case
+    clock = _Kbd(base, incs, ovs)
+    clock.kbd = False
+    clock.interrupted = False
+    LDoist = _mkdoist(clock)
+    end1, tock1, i_run = "done", None, None
+    run2, end2, tock2run = (), None, None
+    with patched(clock):
+        try:
+            d = LDoist(real=True, tock=un(tock0))
+            d._cyc = 0
+            _pre(clock, d, pre, LDoist)
+            tock1 = sc(d.tock)
+            i_run = len(clock.log)
+            clock.kbd = mode == "kbd"
+            try:
+                d.do(doers=[_mkdoer(clock, n, xs, exc=(mode == "exc"))] if n > 0 else [])
+            except KeyboardInterrupt:
+                pass
+            except RuntimeError:
+                end1 = "doer-raised"
+            if clock.interrupted:
+                end1 = "exhausted"
+        except Exhausted:
+            end1 = "exhausted"
+        except core.Infra:
+            raise
+        except Exception as ex:
+            end1 = "raised-" + type(ex).__name__
+        log1 = list(clock.log)
+        if i_run is not None and not (end1 == "exhausted" and not clock.interrupted) and not end1.startswith("raised"):
+            clock.kbd = False
+            clock.c = Fraction(base2, S)
+            clock.incs, clock.i, clock.ovs, clock.j = list(incs2), 0, list(ovs2), 0
+            clock.log = []
+            end2 = "done"
+            try:
+                if tock2 is not None:
+                    d.tock = un(tock2)
+                tock2run = sc(d.tock)
+                d._cyc = 0
+                doer2 = _mkdoer(clock, n2, xs2)
+                if entry == "call":
+                    d(doers=[doer2])
+                else:
+                    d.do(doers=[doer2])
+            except Exhausted:
+                end2 = "exhausted"
+            except core.Infra:
+                raise
+            except Exception as ex:
+                end2 = "raised-" + type(ex).__name__
+            run2 = tuple(clock.log)
+    if i_run is None:
+        return (tuple(log1), (), end1, None, (), None, None)
+    return (tuple(log1[:i_run]), tuple(log1[i_run:]), end1, tock1, run2, end2, tock2run)
+
+
+def oracle_pace2(case, obs):
+    """C07 for each of the two runs of the same scheduler: every run is paced from ITS OWN first clock reading with the
+    tock the scheduler has when THAT run starts, whatever the previous run did (finished, interrupted, failed)."""
+    pre, run1, end1, tock1, run2, end2, tock2 = obs
+    fake1 = ("pace",) + tuple(case[1])
+    bad = set(oracle_pace(fake1, (pre, run1, "done" if end1 == "doer-raised" else end1, tock1)))
+    if end2 is not None:
+        bad |= {"second-run:" + c for c in oracle_pace(fake1, ((), run2, end2, tock2))}
+    return sorted(bad)
+
+
+def gen_pace2(rng):
+    first = gen_pace(rng)[1:]
+    base, incs, ovs, tock0, pre, n, xs = first
+    mode = rng.choice(["kbd", "kbd", "plain", "exc"])
+    if mode != "kbd":
+        incs = tuple(incs) + (0,) * (6 * n + 12)       # run 1 must be able to finish
+    elif rng.random() < 0.8:
+        npre = 2 + sum(1 for p in pre if p[0] == "peek") + 2 * sum(1 for p in pre if p[0] == "sib")
+        if len(incs) > npre + 1:
+            incs = tuple(incs)[:rng.randint(npre + 1, len(incs))]      # Ctrl-C somewhere inside run 1 (incl. in timer.start)
+        else:
+            incs = tuple(incs) + (0,) * rng.randint(1, 6)
+    grid = rng.choice([1, 8, 32])
+    tock2 = rng.choice([None, None, rng.randint(0, 12) * grid, rng.randint(1, 64) * grid, 0])
+    base2 = rng.choice([base, 0, base - rng.randint(1, 5000), base + rng.randint(1, 5000), rng.randint(-50, 50) * grid])
+    n2 = rng.choice([1, 2, 3, 4, 6])
+    xs2 = tuple(rng.choice([0, 0, 1, 2]) for _ in range(n2))
+    incs2 = gen_incs(rng, 1 + sum(xs2) + n2 * rng.choice([3, 4, 6]) + rng.randint(0, 6), grid)
+    ovs2 = tuple(rng.choice([0, 0, rng.randint(1, 200), -rng.randint(1, 40)]) for _ in range(rng.randint(0, 2 * n2)))
+    return ("pace2", (base, tuple(incs), ovs, tock0, pre, n, xs), (mode, tock2),
+            (base2, tuple(incs2), ovs2, n2, xs2, rng.choice(["do", "call"])))
 
 
 def oracle_pace(case, obs):
@@ -559,9 +816,17 @@ def gen_pace(rng):
         pre.insert(rng.randint(0, len(pre)), ("peek",))
     if rng.random() < 0.1:
         pre.append(("peek",))
-    n = rng.choice([1, 2, 3, 3, 4, 5, 6, 8, rng.randint(1, 14)])
+    if rng.random() < 0.15:      # tock reassigned again (and again)
+        for _ in range(rng.randint(1, 2)):
+            pre.insert(rng.randint(0, len(pre)), ("tock", rng.choice([rng.randint(0, 12) * grid, 16, 64, 0])))
+    if rng.random() < 0.2:       # a sibling real-time scheduler is built (and reconfigured) before the run
+        k = rng.randint(0, len(pre))
+        pre.insert(k, ("sib", rng.choice([rng.randint(1, 64) * grid, 1, 1024])))
+        if rng.random() < 0.6:
+            pre.insert(rng.randint(k + 1, len(pre)), ("sibtock", rng.randint(1, 64) * grid))
+    n = rng.choice([0, 1, 2, 3, 3, 4, 5, 6, 8, rng.randint(1, 14)])
     xs = tuple(rng.choice([0, 0, 0, 1, 2, 3]) if rng.random() < 0.5 else 0 for _ in range(n))
-    npre = 2 + sum(1 for p in pre if p[0] == "peek")
+    npre = 2 + sum(1 for p in pre if p[0] == "peek") + 2 * sum(1 for p in pre if p[0] == "sib")
     nrun = 1 + sum(xs) + n * rng.choice([3, 4, 6]) + rng.randint(0, 10)
     profile = rng.choice(["steady", "stall", "back", "mixed", "mixed", "wild"])
     incs = gen_incs(rng, npre + nrun, grid, profile)
@@ -582,8 +847,10 @@ def gen_pace(rng):
         q = rng.random()
         if q < 0.35:
             ovs.append(0)
-        elif q < 0.7:
+        elif q < 0.6:
             ovs.append(rng.randint(1, 5 * max(1, (tock0 or 32))))     # overshoot (lateness), up to several tocks
+        elif q < 0.7:
+            ovs.append(rng.choice([1, 2, 3]) * (tock0 or 32))         # late by a whole number of tocks: wakes exactly on a later deadline
         elif q < 0.85:
             ovs.append(-rng.randint(1, 40) * grid)                     # woke early / clock stepped back while asleep
         else:
@@ -731,12 +998,18 @@ def run_fmono(case):
                 out.append((v, clock.i))
         except Exhausted:
             out.append(("exhausted",))
+        except core.Infra:
+            raise
+        except Exception as ex:
+            out.append(("raised", type(ex).__name__))
     return wrapF(tuple(out))
 
 
 def oracle_fmono(case, obs):
     _, base, incs, dur, ops = case
     obs = unwrapF(obs)
+    if any(o and o[0] == "raised" for o in obs):
+        return ["fmono-raised"]
     bad = set()
     rs, c = [], float(base)
     for d in incs:
@@ -1047,11 +1320,29 @@ def run_ptimer(case):
                     v = sc(tm.start(duration=un(op[1]), start=un(op[2])))
                 elif k == "restart":
                     v = sc(tm.restart(duration=un(op[1])))
+                elif k == "bad":
+                    b = BAD_ARGS[op[2] % len(BAD_ARGS)]
+                    try:
+                        if op[1] == "start-dur":
+                            tm.start(duration=b)
+                        elif op[1] == "start-start":
+                            tm.start(start=b)
+                        else:
+                            tm.restart(duration=b)
+                        v = "accepted"
+                    except Exhausted:
+                        raise
+                    except Exception:
+                        v = "ValueError"
                 else:
                     raise core.Infra(f"bad ptimer op {op!r}")
                 out.append((v, clock.i))
         except Exhausted:
             out.append(("exhausted",))
+        except core.Infra:
+            raise
+        except Exception as ex:
+            out.append(("raised", type(ex).__name__))
 
     if kind == "timer":
         with patched(clock):
@@ -1079,6 +1370,8 @@ def oracle_ptimer(case, obs):
     rs = readings(base, incs)
     if not obs or obs[0] == ("exhausted",):
         return []
+    if obs[0][0] == "raised":
+        return ["ptimer-constructor-raised"]
     n0 = obs[0][1]
     rstart = start if start is not None else (rs[n0 - 1] if n0 >= 1 else None)
     if rstart is None:
@@ -1089,8 +1382,16 @@ def oracle_ptimer(case, obs):
     for op, o in zip(ops, obs[1:]):
         if o == ("exhausted",):
             break
+        if o[0] == "raised":
+            bad.add("ptimer-op-raised")
+            break
         v, ni = o
         k = op[0]
+        if k == "bad":
+            if v != "ValueError":
+                bad.add("ptimer-bad-call-accepted")
+            seen = ni
+            continue
         if ni > seen and any(rs[m] < rs[m - 1] for m in range(max(seen, 1), ni)):
             mono_ok = False     # the clock went backwards inside this period: no monotonicity claim
         if k == "duration":
@@ -1151,6 +1452,8 @@ def gen_ptimer(rng):
         else:
             s = None if rng.random() < 0.6 else base + rng.randint(-40, 40) * grid
             ops.append(("start", rng.choice([None, None, rng.randint(0, 30) * grid, 0]), s))
+    for _ in range(rng.choice([0, 0, 1, 2])):
+        ops.insert(rng.randint(0, len(ops)), ("bad", rng.choice(["start-dur", "start-start", "restart-dur"]), rng.randint(0, 1)))
     need = 2 + len(ops)
     incs = gen_incs(rng, need, grid, rng.choice(["steady", "steady", "stall", "mixed"]))
     # put readings exactly on / beside the stop now and then (expired is `>=`)
@@ -1168,3 +1471,232 @@ def shrink_ptimer(case):
     for i in range(len(incs)):
         if incs[i] != 0:
             yield ("ptimer", kind, base, incs[:i] + (0,) + incs[i + 1:], init, ops)
+
+
+# --------------------------------------------------------------------------
+# raw-float Timer / AsyncTimer (oracle only)
+
+def _fake_loop(clock):
+    import asyncio
+
+    class FakeLoop(asyncio.AbstractEventLoop):
+        def time(self):
+            return clock.time()
+    return FakeLoop()
+
+
+def run_fptimer(case):
+    import asyncio
+    import warnings
+    from hio.help import timing
+    _, kind, base, incs, dur, ops = case
+    clock = FClock(base, incs)
+    out = []
+
+    def body():
+        cls = timing.Timer if kind == "timer" else timing.AsyncTimer
+        try:
+            tm = cls(duration=dur)
+            out.append(("new", clock.i))
+            for op in ops:
+                k = op[0]
+                if k in ("elapsed", "remaining", "expired", "duration"):
+                    v = getattr(tm, k)
+                elif k == "start":
+                    v = tm.start(duration=op[1])
+                else:
+                    v = tm.restart(duration=op[1])
+                out.append((v, clock.i))
+        except Exhausted:
+            out.append(("exhausted",))
+        except Exception as ex:
+            out.append(("raised", type(ex).__name__))
+
+    if kind == "timer":
+        with patched(clock):
+            body()
+    else:
+        try:
+            asyncio.set_event_loop(_fake_loop(clock))
+            with warnings.catch_warnings():
+                warnings.simplefilter("ignore", DeprecationWarning)
+                body()
+        finally:
+            asyncio.set_event_loop(None)
+    return wrapF(tuple(out))
+
+
+def oracle_fptimer(case, obs):
+    """floats as the library computes them: started at reading r with duration d: start = r, stop = r + d;
+    elapsed = now - start, remaining = stop - now, expired exactly when now >= stop; restart at the previous stop"""
+    _, kind, base, incs, dur, ops = case
+    obs = unwrapF(obs)
+    bad = set()
+    rs, c = [], float(base)
+    for d in incs:
+        c = c + d
+        rs.append(c)
+    if not obs or obs[0] == ("exhausted",):
+        return []
+    if obs[0][0] == "raised" or obs[0][1] < 1:
+        return ["fptimer-constructor"]
+    start = rs[obs[0][1] - 1]
+    stop = start + float(dur)
+    for op, o in zip(ops, obs[1:]):
+        if o == ("exhausted",):
+            break
+        if o[0] == "raised":
+            bad.add("fptimer-op-raised")
+            break
+        v, ni = o
+        k = op[0]
+        now = rs[ni - 1]
+        if k == "duration":
+            if v != stop - start:
+                bad.add("fptimer-duration")
+        elif k == "restart":
+            d = op[1] if op[1] is not None else stop - start
+            start, stop = stop, stop + d
+            if v != start:
+                bad.add("fptimer-restart-not-at-previous-stop")
+        elif k == "start":
+            d = op[1] if op[1] is not None else stop - start
+            start, stop = now, now + d
+            if v != start:
+                bad.add("fptimer-start-return")
+        elif k == "elapsed":
+            if v != now - start:
+                bad.add("fptimer-elapsed-not-now-minus-start")
+        elif k == "remaining":
+            if v != stop - now:
+                bad.add("fptimer-remaining-not-stop-minus-now")
+        elif k == "expired":
+            if v is not (now >= stop):
+                bad.add("fptimer-expired-not-exactly-now>=stop")
+    return sorted(bad)
+
+
+def gen_fptimer(rng):
+    import math
+    pick = lambda: rng.choice(FVALS) * rng.choice([1, 1, 3, 7, 0.1])
+    kind = rng.choice(["timer", "async", "async"])
+    base = rng.choice([0.0, 0.1, -0.05, -0.3, 4.23, 1000.7, 1700000000.123])
+    dur = rng.choice([pick(), pick(), 50.0, -base + pick() if base < 0 else pick()])
+    nctor = 2 if kind == "timer" else 1
+    incs = [0.0] * nctor
+    c = base
+    start, stop = c, c + dur
+    ops = []
+    for _ in range(rng.choice([1, 2, 3, 5, 8])):
+        r = rng.random()
+        if r < 0.12:
+            ops.append(("duration",))
+            continue
+        if r < 0.3:
+            d = rng.choice([None, None, pick()])
+            ops.append(("restart", d))
+            dd = d if d is not None else stop - start
+            start, stop = stop, stop + dd
+            continue
+        below = math.nextafter(stop, -math.inf)
+        t = rng.choice([stop, below, math.nextafter(stop, math.inf), math.nextafter(below, -math.inf), start + (stop - start), c + pick() * 0.1, c])
+        if t < c and kind == "async":
+            t = c                      # the event-loop clock does not go backwards
+        if c + (t - c) != t:
+            t = c + (t - c)
+        incs.append(t - c)
+        c = t
+        if r < 0.4:
+            d = rng.choice([None, pick()])
+            ops.append(("start", d))
+            dd = d if d is not None else stop - start
+            start, stop = c, c + dd
+        else:
+            ops.append((rng.choice(["expired", "expired", "remaining", "elapsed"]),))
+    if rng.random() < 0.6:
+        # aim (see gen_fpace): clock below zero, stop above it; readings climb to just before the stop, then its float neighbours
+        base = -rng.choice(FVALS) * rng.choice([1, 0.1, 0.5])
+        dur = -base + rng.choice(FVALS) * rng.choice([1, 0.1, 0.5, 3])
+        stop = base + dur
+        below = math.nextafter(stop, -math.inf)
+        seq = [stop - dur * rng.choice([0.01, 0.001, 0.1]), math.nextafter(below, -math.inf), below, stop, math.nextafter(stop, math.inf)]
+        incs, c, ops = [0.0] * nctor, base, []
+        for t in seq:
+            if t < c or c + (t - c) != t:
+                continue
+            incs.append(t - c)
+            c = t
+            ops.append((rng.choice(["expired", "expired", "expired", "expired", "remaining", "elapsed"]),))
+    return ("fptimer", kind, base, tuple(incs), dur, tuple(ops))
+
+
+# --------------------------------------------------------------------------
+# Doist.ado in real mode (AsyncTimer pacing) -- oracle only.  C07's text names the blocking do() loop; this stream
+# covers the other public entry point of the same pacing with the same two clauses, on an event-loop clock that
+# (by contract) never goes backwards.
+#   ("apace", base, incs>=0, ovs, tock0, tock1|None, n, xs)
+
+def run_apace(case):
+    import asyncio
+    _, base, incs, ovs, tock0, tock1, n, xs = case
+    clock = FakeClock(base, incs, ovs)
+    LDoist = _mkdoist(clock)
+    fake = _fake_loop(clock)
+
+    async def fsleep(d, result=None):
+        clock.sleep(d)
+        return result
+
+    end, tock_run, i_run = "done", None, None
+    old_gel, old_sleep = asyncio.get_event_loop, asyncio.sleep
+    with patched(clock):
+        try:
+            d = LDoist(real=True, tock=un(tock0))
+            d._cyc = 0
+            if tock1 is not None:
+                d.tock = un(tock1)
+            tock_run = sc(d.tock)
+            i_run = len(clock.log)
+            asyncio.get_event_loop, asyncio.sleep = (lambda: fake), fsleep
+            try:
+                asyncio.run(d.ado(doers=[_mkdoer(clock, n, xs)]))
+            finally:
+                asyncio.get_event_loop, asyncio.sleep = old_gel, old_sleep
+        except Exhausted:
+            end = "exhausted"
+        except core.Infra:
+            raise
+        except Exception as ex:
+            end = "raised-" + type(ex).__name__
+    if i_run is None:
+        return ((), end, None)
+    return (tuple(clock.log[i_run:]), end, tock_run)
+
+
+def oracle_apace(case, obs):
+    run, end, tock = obs
+    # the AsyncTimer is built (one reading) and then started (another) before the first cycle: the run's clock starts at
+    # the last reading before recur 0
+    k0 = next((i for i, e in enumerate(run) if e[0] == "c"), None)
+    if k0 is None:
+        return ["run-raised"] if end.startswith("raised") else []
+    lead = [i for i in range(k0) if run[i][0] == "t"]
+    if not lead:
+        return ["ado-no-clock-reading-before-first-cycle"]
+    fake = ("pace", case[1], case[2], case[3], case[4], (), case[6], case[7])
+    return oracle_pace(fake, ((), tuple(run[lead[-1]:]), end, tock))
+
+
+def gen_apace(rng):
+    grid = rng.choice([1, 8, 32])
+    base = rng.choice([0, 1000 * S, rng.randint(0, 50) * grid])
+    tock0 = rng.choice([None, 32, rng.randint(0, 12) * grid, rng.randint(1, 64) * grid, 0])
+    tock1 = rng.choice([None, None, rng.randint(0, 12) * grid, rng.randint(1, 64) * grid])
+    n = rng.choice([1, 2, 3, 4, 6, 8])
+    xs = tuple(rng.choice([0, 0, 1, 2]) for _ in range(n))
+    m = 4 + sum(xs) + n * rng.choice([3, 4, 6]) + rng.randint(0, 6)
+    incs = [abs(d) for d in gen_incs(rng, m, grid, rng.choice(["steady", "stall", "stall"]))]
+    if rng.random() < 0.2:
+        incs = incs[:rng.randint(0, len(incs))]
+    ovs = tuple(rng.choice([0, 0, rng.randint(1, 5 * max(1, tock0 or 32)), rng.randint(1, 3) * grid]) for _ in range(rng.randint(0, 2 * n + 1)))
+    return ("apace", base, tuple(incs), ovs, tock0, tock1, n, xs)
